@@ -47,6 +47,8 @@ type CelRow struct {
 	Ref     []string `json:"ref,omitempty"`    // true / false / err:<msg> / nonbool
 	Obs     []string `json:"obs,omitempty"`    // ok / cel (CEL error reported) / panic / other
 	Source  string   `json:"source,omitempty"`
+	Ctx     string   `json:"ctx,omitempty"`  // ValidateContext(already cancelled ctx) on the first binding: canceled / nil / cel / other / panic
+	Extra   string   `json:"extra,omitempty"` // extra marker lines on the field
 }
 
 // ---------------------------------------------------------------- AST → S-expression (for the Lean model)
@@ -207,11 +209,16 @@ func valuesFor(t string) []celVal {
 	case "bool":
 		return []celVal{bv(true), bv(false)}
 	case "[]string":
-		return []celVal{lsv(), lsv([]string{}...), {GoLit: "[]string{}", Cel: []string{}, Show: "[]"}, lsv("a"), lsv("a", "b"), lsv("admin", "x"), lsv("", "a"), lsv("prefix1", "prefix2"), lsv("prefix1", "other"), lsv("target", "target"), lsv("unique", "b", "c"), lsv("é", "日本")}
+		return []celVal{lsv(), lsv([]string{}...), {GoLit: "[]string{}", Cel: []string{}, Show: "[]"}, lsv("a"), lsv("a", "b"), lsv("admin", "x"), lsv("", "a"), lsv("prefix1", "prefix2"), lsv("prefix1", "other"), lsv("target", "target"), lsv("unique", "b", "c"), lsv("é", "日本"), lsv("", "a", "", "b"), lsv("x", "prefix1", "", "prefix2")}
 	case "[]int":
-		return []celVal{{GoLit: "[]int(nil)", Cel: []int64{}, Show: "nil"}, liv(), liv(1), liv(1, 2, 3), liv(0, -1), liv(5, 5), liv(10, 20, 30, 40)}
+		return []celVal{{GoLit: "[]int(nil)", Cel: []int64{}, Show: "nil"}, liv(), liv(1), liv(1, 2, 3), liv(0, -1), liv(5, 5), liv(10, 20, 30, 40), liv(-1, 5, -3, 7), liv(200, -1, 50)}
 	case "map[string]int":
 		return []celVal{{GoLit: "map[string]int(nil)", Cel: map[string]int64{}, Show: "nil"}, mv(), mv("a", 1), mv("a", 1, "b", 2), mv("k", 0), mv("admin", 5, "x", -1), mv("1", 1, "2", 2, "3", 3)}
+	case "Span":
+		mk := func(a, b int64) celVal {
+			return celVal{GoLit: fmt.Sprintf("Span{A: %d, B: %d}", a, b), Cel: map[string]any{"A": a, "B": b}, Show: fmt.Sprintf("Span{%d,%d}", a, b)}
+		}
+		return []celVal{mk(1, 2), mk(2, 1), mk(0, 0), mk(-5, 5)}
 	case "time.Duration":
 		return []celVal{dv(0), dv(time.Second), dv(30 * time.Minute), dv(time.Hour), dv(time.Hour + 1), dv(2 * time.Hour), dv(-time.Hour), dv(math.MaxInt64), dv(math.MinInt64)}
 	}
@@ -529,6 +536,7 @@ type celCase struct {
 	FType  string
 	Feats  []string
 	Corpus bool
+	Extra  string // extra marker lines written before the cel marker
 }
 
 var celFieldTypes = []string{"int", "int64", "int8", "int16", "int32", "uint", "uint8", "uint32", "uint64", "float64", "string", "bool", "[]string", "[]int", "map[string]int", "time.Duration"}
@@ -562,7 +570,8 @@ func celCorpus() []celCase {
 		{"[]int", "value.all(x, x > 0)"}, {"[]int", "1 in value"}, {"[]int", "value.exists_one(x, x == 5)"},
 		{"string", "value + 'x' == 'ax'"}, {"string", "value < 'b'"}, {"string", "startsWith(value, 'a')"},
 		{"int", "double(value) > 17.5"}, {"int", "string(value) == '42'"}, {"string", "double(value) > 1.5"},
-		{"int", "value == 1 || value == 2 && this.B"}, {"float64", "value <= 16777217.0"}, {"int", "18 <= value"}, {"int", "0 < value"}, {"int", "100 > value"}, {"float64", "0.5 < value"}, {"string", "'abc' <= value"}, {"uint8", "5u >= value"}, {"float64", "value == 0.1"}, {"float64", "value < 0.123456789"}, {"int", "has(this.X)"}, {"string", "value == \"it's\""}, {"string", "value == 'say \"hi\"'"},
+		{"int", "value == 1 || value == 2 && this.B"}, {"float64", "value <= 16777217.0"}, {"[]int", "value.filter(x, x > 0).all(y, y < 100)"}, {"[]int", "value.filter(x, x > 0).exists(y, y == 7)"},
+		{"[]string", "value.filter(s, s != '').exists(u, u == 'a')"}, {"[]string", "value.filter(s, s.startsWith('prefix')).all(u, size(u) > 6)"}, {"[]int", "size(value.filter(x, x > 0).map(y, y * 2)) == 2"}, {"int", "18 <= value"}, {"int", "0 < value"}, {"int", "100 > value"}, {"float64", "0.5 < value"}, {"string", "'abc' <= value"}, {"uint8", "5u >= value"}, {"float64", "value == 0.1"}, {"float64", "value < 0.123456789"}, {"int", "has(this.X)"}, {"string", "value == \"it's\""}, {"string", "value == 'say \"hi\"'"},
 		{"string", "value.size() > 2"}, {"[]string", "value.size() > 1"}, {"[]string", "value[0] == 'a'"}, {"time.Duration", "value < duration('30m')"},
 		{"string", "value.trim() == 'a'"}, {"int", "math.abs(value) > 1"}, {"int", "value ?: 1"},
 	}
@@ -570,6 +579,11 @@ func celCorpus() []celCase {
 	for i, r := range raw {
 		out = append(out, celCase{ID: fmt.Sprintf("k%03d", i), FType: r[0], Expr: r[1], Feats: []string{"corpus"}, Corpus: true})
 	}
+	// a field of a named struct type: `required` emits no check for it, the cel rule does
+	out = append(out,
+		celCase{ID: "s000", FType: "Span", Expr: "value.A <= value.B", Feats: []string{"corpus", "struct-field"}, Corpus: true},
+		celCase{ID: "s001", FType: "Span", Expr: "value.A <= value.B", Feats: []string{"corpus", "struct-field", "required+cel"}, Corpus: true, Extra: "\t//govalid:required\n"},
+		celCase{ID: "s002", FType: "Span", Expr: "value.A + value.B >= this.X", Feats: []string{"corpus", "struct-field", "required+cel"}, Corpus: true, Extra: "\t//govalid:required\n"})
 	return out
 }
 
@@ -625,13 +639,22 @@ func celSource(pkg string, c celCase) string {
 	if strings.Contains(c.FType, "time.") {
 		imp = "import \"time\"\n\nvar _ time.Duration\n\n"
 	}
-	return "package " + pkg + "\n\n" + imp + "type T struct {\n\t//govalid:cel=" + c.Expr + "\n\tF " + c.FType + "\n\n\tX int\n\n\tY int\n\n\tS string\n\n\tB bool\n\n\tL []string\n\n\tD float64\n}\n"
+	if c.FType == "Span" {
+		imp += "type Span struct {\n\tA int\n\tB int\n}\n\n"
+	}
+	return "package " + pkg + "\n\n" + imp + "type T struct {\n" + c.Extra + "\t//govalid:cel=" + c.Expr + "\n\tF " + c.FType + "\n\n\tX int\n\n\tY int\n\n\tS string\n\n\tB bool\n\n\tL []string\n\n\tD float64\n}\n"
 }
 
 func celDriverFile(pkg string, c celCase, vals []celVal) string {
 	var sb strings.Builder
-	sb.WriteString("package " + pkg + "\n\nimport (\n\t\"errors\"\n\t\"fmt\"\n\t\"io\"\n\t\"math\"\n\t\"time\"\n)\n\nvar _ = math.Pi\nvar _ time.Duration\n\n")
-	sb.WriteString("func run1(v *T) (res string) {\n\tdefer func() {\n\t\tif r := recover(); r != nil {\n\t\t\tres = \"panic\"\n\t\t}\n\t}()\n\terr := v.Validate()\n\tif err == nil {\n\t\treturn \"ok\"\n\t}\n\tif errors.Is(err, ErrTFCELValidation) {\n\t\treturn \"cel\"\n\t}\n\treturn \"other\"\n}\n\n")
+	sb.WriteString("package " + pkg + "\n\nimport (\n\t\"context\"\n\t\"errors\"\n\t\"fmt\"\n\t\"io\"\n\t\"math\"\n\t\"time\"\n)\n\nvar _ = math.Pi\nvar _ time.Duration\n\n")
+	sb.WriteString("func run1(v *T) (res string) {\n\tdefer func() {\n\t\tif r := recover(); r != nil {\n\t\t\tres = \"panic\"\n\t\t}\n\t}()\n\tbefore := fmt.Sprintf(\"%#v\", *v)\n\terr := v.Validate()\n\tif after := fmt.Sprintf(\"%#v\", *v); after != before {\n\t\treturn \"mutated\"\n\t}\n\tif err == nil {\n\t\treturn \"ok\"\n\t}\n\tif errors.Is(err, ErrTFCELValidation) {\n\t\treturn \"cel\"\n\t}\n\treturn \"other\"\n}\n\n")
+	sb.WriteString("func RunCtx(w io.Writer) {\n\tctx, cancel := context.WithCancel(context.Background())\n\tcancel()\n\tres := \"other\"\n")
+	fmt.Fprintf(&sb, "\tfunc() {\n\t\tdefer func() {\n\t\t\tif r := recover(); r != nil {\n\t\t\t\tres = \"panic\"\n\t\t\t}\n\t\t}()\n\t\terr := (&T{F: %s, %s}).ValidateContext(ctx)\n", vals[0].GoLit, otherGrid[1].lits())
+	sb.WriteString("\t\tswitch {\n\t\tcase err == nil:\n\t\t\tres = \"nil\"\n\t\tcase errors.Is(err, context.Canceled):\n\t\t\tres = \"canceled\"\n\t\tcase errors.Is(err, ErrTFCELValidation):\n\t\t\tres = \"cel\"\n\t\t}\n\t}()\n")
+	fmt.Fprintf(&sb, "\tfmt.Fprintf(w, \"%s\\tctx\\t%%s\\n\", res)\n}\n\n", c.ID)
+	// stress entry for the race run: bindings that are distinct per goroutine and per iteration
+	fmt.Fprintf(&sb, "func RunStress(g int) {\n\tfor i := 0; i < 150; i++ {\n\t\tv := &T{F: %s, %s}\n\t\tv.S = fmt.Sprintf(\"^a%%d_%%d\", g, i)\n\t\tv.X = g*1000 + i\n\t\t_ = run1(v)\n\t}\n}\n\n", vals[0].GoLit, otherGrid[1].lits())
 	sb.WriteString("func Run(w io.Writer) {\n")
 	k := 0
 	for _, v := range vals {
@@ -710,6 +733,7 @@ func celMain(args []string) {
 	if len(args) > 5 {
 		n, _ = strconv.Atoi(args[5])
 	}
+	race := len(args) > 6 && args[6] == "race"
 	cases := celCases(rand.New(rand.NewSource(seed)), n)
 	rows := make([]*CelRow, len(cases))
 	var wg sync.WaitGroup
@@ -725,7 +749,7 @@ func celMain(args []string) {
 			_ = os.MkdirAll(dir, 0o755)
 			src := celSource(pkg, c)
 			_ = os.WriteFile(filepath.Join(dir, "x.go"), []byte(src), 0o644)
-			row := &CelRow{ID: c.ID, Expr: c.Expr, FType: c.FType, Feats: c.Feats, Corpus: c.Corpus, Source: src}
+			row := &CelRow{ID: c.ID, Expr: c.Expr, FType: c.FType, Feats: c.Feats, Corpus: c.Corpus, Source: src, Extra: c.Extra}
 			vals := valuesFor(c.FType)
 			row.RefErr, row.Ast, row.Ref, row.Values = refEval(c, vals)
 			o, code := r.cmd(r.mod(), r.govalid, "./"+pkg)
@@ -767,19 +791,25 @@ func celMain(args []string) {
 		wg.Wait()
 	}
 	var mb strings.Builder
-	mb.WriteString("package main\n\nimport (\n\t\"bufio\"\n\t\"os\"\n")
+	mb.WriteString("package main\n\nimport (\n\t\"bufio\"\n\t\"io\"\n\t\"os\"\n\t\"sync\"\n")
 	for _, row := range rows {
 		if row.Builds {
 			fmt.Fprintf(&mb, "\tq%s \"scen/q%s\"\n", row.ID, row.ID)
 		}
 	}
-	mb.WriteString(")\n\nfunc main() {\n\tw := bufio.NewWriterSize(os.Stdout, 1<<20)\n\tdefer w.Flush()\n")
+	mb.WriteString(")\n\nfunc all(w io.Writer) {\n")
 	for _, row := range rows {
 		if row.Builds {
-			fmt.Fprintf(&mb, "\tq%s.Run(w)\n", row.ID)
+			fmt.Fprintf(&mb, "\tq%s.Run(w)\n\tq%s.RunCtx(w)\n", row.ID, row.ID)
 		}
 	}
-	mb.WriteString("}\n")
+	mb.WriteString("}\n\nfunc stress(g int) {\n")
+	for _, row := range rows {
+		if row.Builds {
+			fmt.Fprintf(&mb, "\tq%s.RunStress(g)\n", row.ID)
+		}
+	}
+	mb.WriteString("}\n\nfunc main() {\n\tif len(os.Args) > 1 && os.Args[1] == \"race\" {\n\t\t// the same validations from 8 goroutines at once (every package, every binding), output discarded\n\t\tvar wg sync.WaitGroup\n\t\tfor g := 0; g < 8; g++ {\n\t\t\twg.Add(1)\n\t\t\tgo func(g int) {\n\t\t\t\tdefer wg.Done()\n\t\t\t\tstress(g)\n\t\t\t\tall(io.Discard)\n\t\t\t}(g)\n\t\t}\n\t\twg.Wait()\n\t\treturn\n\t}\n\tw := bufio.NewWriterSize(os.Stdout, 1<<20)\n\tdefer w.Flush()\n\tall(w)\n}\n")
 	_ = os.MkdirAll(filepath.Join(r.mod(), "cmd", "celdrv"), 0o755)
 	_ = os.WriteFile(filepath.Join(r.mod(), "cmd", "celdrv", "main.go"), []byte(mb.String()), 0o644)
 	bin := filepath.Join(r.work, "celdrv")
@@ -794,16 +824,33 @@ func celMain(args []string) {
 		fmt.Fprintln(os.Stderr, "cel driver failed:", err)
 	}
 	obs := map[string][]string{}
+	ctxObs := map[string]string{}
 	for _, line := range strings.Split(string(o), "\n") {
 		p := strings.Split(line, "\t")
-		if len(p) == 3 {
+		if len(p) == 3 && p[1] == "ctx" {
+			ctxObs[p[0]] = p[2]
+		} else if len(p) == 3 {
 			obs[p[0]] = append(obs[p[0]], p[2])
 		}
 	}
 	enc := json.NewEncoder(out)
 	for _, row := range rows {
 		row.Obs = obs[row.ID]
+		row.Ctx = ctxObs[row.ID]
 		_ = enc.Encode(row)
+	}
+	// race detector: the same driver built with -race, every package validated from 8 goroutines at once
+	if race {
+		rbin := filepath.Join(r.work, "celdrv-race")
+		if o, c := r.cmd(r.mod(), "go", "build", "-race", "-o", rbin, "./cmd/celdrv"); c != 0 {
+			fmt.Fprintln(os.Stderr, "cel race driver does not build:", tail(o, 2000))
+			os.Exit(3)
+		}
+		rc := exec.Command(rbin, "race")
+		rc.Env = goEnv
+		ro, rerr := rc.CombinedOutput()
+		bad := strings.Contains(string(ro), "DATA RACE")
+		_ = enc.Encode(map[string]any{"race": map[string]any{"ok": !bad && rerr == nil, "packages": len(obs), "goroutines": 8, "detail": tail(string(ro), 4000)}})
 	}
 	_ = hex.EncodeToString
 }
